@@ -93,7 +93,13 @@ var c11NextHops = map[string][]netip.Addr{
 	"n6a":  {netip.MustParseAddr("2001:db8:ffff::1")},
 	"n6b":  {netip.MustParseAddr("2001:db8:ffff::2")},
 	"n6al": {netip.MustParseAddr("2001:db8:ffff::1"), netip.MustParseAddr("fe80::1")},
+	// IPv4 unicast learned in MP_REACH_NLRI form (AFI 1 / SAFI 1) with an IPv4 next hop: the path
+	// has NO NEXT_HOP attribute, its next hop lives only in its MP_REACH_NLRI
+	"m4a": {netip.MustParseAddr("192.0.2.1")},
+	"m4b": {netip.MustParseAddr("192.0.2.2")},
 }
+
+func c11ViaMP(tok string) bool { return tok == "m4a" || tok == "m4b" }
 
 func c11NhString(nhs []netip.Addr) string {
 	s := ""
@@ -249,7 +255,7 @@ func c11Attrs(c c11Change) []bgp.PathAttributeInterface {
 	if nhs == nil {
 		panic("c11: next hop token " + c.Nh)
 	}
-	classic := c.Fam == "v4" && nhs[0].Is4()
+	classic := c.Fam == "v4" && nhs[0].Is4() && !c11ViaMP(c.Nh)
 	if classic {
 		nh, _ := bgp.NewPathAttributeNextHop(nhs[0])
 		attrs = append(attrs, nh)
@@ -403,11 +409,23 @@ func TestVerifC11(t *testing.T) {
 					}
 				}
 				nhs := c11NextHops[c.Nh]
-				classic := c.Fam == "v4" && nhs[0].Is4()
+				classic := c.Fam == "v4" && nhs[0].Is4() && !c11ViaMP(c.Nh)
 				pattrs := attrs
+				wattrs := attrs // the attribute block (without MP_REACH_NLRI) as it goes on the wire
 				var single *bgp.BGPMessage
 				if classic {
 					single = bgp.NewBGPUpdateMessage(nil, attrs, []bgp.PathNLRI{{NLRI: nlri, ID: c.Lid}})
+				} else if c11ViaMP(c.Nh) {
+					// table side: attributes + MP_REACH_NLRI(IPv4 unicast, IPv4 next hop), no NEXT_HOP;
+					// wire side (what this route alone must look like): classic UPDATE with NEXT_HOP
+					mp, err := bgp.NewPathAttributeMpReachNLRI(f, []bgp.PathNLRI{{NLRI: nlri, ID: c.Lid}}, nhs...)
+					if err != nil {
+						t.Fatalf("mp_reach: %v", err)
+					}
+					pattrs = append(append(make([]bgp.PathAttributeInterface, 0, len(attrs)+1), attrs...), mp)
+					nha, _ := bgp.NewPathAttributeNextHop(nhs[0])
+					wattrs = append(append(make([]bgp.PathAttributeInterface, 0, len(attrs)+1), attrs...), nha)
+					single = bgp.NewBGPUpdateMessage(nil, wattrs, []bgp.PathNLRI{{NLRI: nlri, ID: c.Lid}})
 				} else {
 					mp, err := bgp.NewPathAttributeMpReachNLRI(f, []bgp.PathNLRI{{NLRI: nlri, ID: c.Lid}}, nhs...)
 					if err != nil {
@@ -428,10 +446,10 @@ func TestVerifC11(t *testing.T) {
 				if b.Cfg.Collide {
 					p.SetHash(0x5eed5eed5eed5eed)
 				}
-				o.AttrBytes = c11AttrBytes(pattrs)
-				if o.AttrBytes != c.Ab {
-					t.Fatalf("attribute block: requested %d octets, built %d", c.Ab, o.AttrBytes)
+				if built := c11AttrBytes(pattrs); built != c.Ab {
+					t.Fatalf("attribute block: requested %d octets, built %d", c.Ab, built)
 				}
+				o.AttrBytes = c11AttrBytes(wattrs)
 				su := single.Body.(*bgp.BGPUpdate)
 				c11ForSession(su, b.Cfg.As2)
 				body, err := single.Body.Serialize(tx)
